@@ -73,6 +73,20 @@ def c09(tier, rng):
         for s in all_strings(FRAGS_SMALL, 4):
             if len([1 for _ in s]) >= 0:
                 cases.append(run_case('lex', s, label='frag4'))
+    # characters that coincide with an operator character only after truncation to a byte, or only when two
+    # characters are packed into one small integer: each must lex exactly as the unrelated character it is
+    opchars = ['=', '&', '|', '*', '<', '>', '!', '/', '"', '.', ';', '(', '_', '0', '9', ' ', '\n']
+    highs = [0x01, 0x04, 0x09, 0x20, 0x21, 0x30, 0x4e, 0xff, 0x100, 0x1f6] if tier == 'quick' else list(range(1, 0x110)) + [0x1f6, 0x2fa, 0xe00, 0x10ff]
+    for oc in opchars:
+        for h in highs:
+            cp = h * 256 + ord(oc)
+            if 0xD800 <= cp <= 0xDFFF or cp > 0x10FFFF:
+                continue
+            ch = chr(cp)
+            for first in ['=', '!', '<', '>', '&', '|', '*', '/', 'a', '1', ' ', '\n', '"']:
+                cases.append(run_case('lex', first + ch, label='low-byte-twin'))
+            cases.append(run_case('lex', ch + '=', label='low-byte-twin'))
+            cases.append(run_case('lex', 'x ' + ch + ' y\n@', label='low-byte-twin'))
     # single code points
     step = 1 if tier == 'thorough' else 23
     cps = list(range(0, 0x3100)) + list(range(0x3100, 0x110000, step)) + [0xD7FF, 0xE000, 0xFFFD, 0xFFFF, 0x10000, 0x10FFFF]
@@ -90,7 +104,7 @@ def c09(tier, rng):
         cases.append(Case('bad-utf8', req('lex', bs), LEXKEYS, src=bs.decode('latin1')))
     rule = (f'every string of <= {maxlen} fragments over {len(FRAGS)} lexical fragments' +
             (f', every string of <= 4 over {len(FRAGS_SMALL)} fragments' if tier == 'thorough' else '') +
-            f'; {len(keyword_lookalikes())} keyword look-alikes (other normalisation forms, joiners, neighbours); single code points (step {step} above U+3100, all below, each also inside a word); {n} seeded random texts with '
+            f'; characters whose low byte is an operator / digit / quote / blank character, after each operator prefix ({len(opchars)} x {len(highs)} code points x 15 contexts); {len(keyword_lookalikes())} keyword look-alikes (other normalisation forms, joiners, neighbours); single code points (step {step} above U+3100, all below, each also inside a word); {n} seeded random texts with '
             'multi-line strings and comments; malformed UTF-8. Non-trivial = produces a token other than EOF or a diagnostic.')
     return {'cases': cases, 'rule': rule, 'exhaustive': True}
 
@@ -106,6 +120,18 @@ def swap_script(s, rng=None):
         else:
             out.append(c)
     return ''.join(out)
+
+def long_literals(tier):
+    out = []
+    for n in ([799, 800, 801, 1000, 2000] if tier == 'quick' else [255, 256, 257, 511, 513, 767, 768, 769, 799, 800, 801, 802, 1023, 1025, 2000, 5000, 20000]):
+        out.append('0' * n + '7')                                   # leading zeros, the value is in the tail
+        out.append('0.' + '0' * n + '7' if n < 320 else '0.' + '0' * 300 + '1' * (n - 300))
+        out.append('9007199254740993.' + '0' * n + '1')             # a halfway case decided by a digit far to the right
+        out.append('9007199254740992.' + '9' * n)
+        out.append('1' + '0' * 15 + '.' + '5' + '0' * n + '1')      # tie broken beyond the buffer
+        out.append('3.' + '141592653589793238462643383279' * (n // 30 + 1))
+        out.append('1' * 17 + '.' + '2' * n)
+    return out
 
 def c10(tier, rng):
     cases = []
@@ -132,6 +158,10 @@ def c10(tier, rng):
         raw.append(r)
         if t and all(c in '0123456789.' for c in t) and t[0] != '.' and t[-1] != '.' and t.count('.') <= 1:
             lits.append(t)
+    ll = long_literals(tier)
+    for t in ll:
+        raw.append('num\tpf\t' + hx(t))
+        lits.append(t)
     pairs = []
     for i, t in enumerate(lits):
         sw = swap_script(t, rng.fork(i))
@@ -141,7 +171,7 @@ def c10(tier, rng):
             cases.append(run_case('lex', v, label='literal', group=g))
         cases.append(run_case('run', KW['print'] + ' ' + sw + ';', label='literal-print', keys=('O', 'E', 'F')))
     rule = (f'utils.ConvertBanglaDigitsToASCII on every code point (step {step} above U+20000); digit classification around both digit ranges; '
-            f'every string of <= {maxlen} over {alpha}; {len(lits)} seeded literals up to 400 digits (halfway cases, subnormals, overflow threshold), '
+            f'every string of <= {maxlen} over {alpha}; {len(lits)} seeded literals up to 400 digits (halfway cases, subnormals, overflow threshold) and {len(ll)} of {min(len(x) for x in ll)}..{max(len(x) for x in ll)} characters whose value is decided by their last digits, '
             'each in ASCII, mixed and Bangla script (the three must give the same Literal bits), and printed. Non-trivial = NUMBER token or diagnostic.')
     return {'cases': cases, 'raw': raw, 'rule': rule, 'exhaustive': tier == 'thorough',
             'oracles': [oracle_same_literal]}
@@ -328,6 +358,18 @@ def c01(tier, rng, for_c08=False):
         for chain in itertools.product(['(1)', '[1]', '.p', '()'], repeat=n):
             cases.append(run_case('parse', 'a' + ''.join(chain) + ';', label='suffix-chain'))
             cases.append(run_case('parse', 'a' + ''.join(chain) + ' = 1;', label='suffix-chain-assign'))
+    for op_ in ['||', '&&', '|', '^', '&', '==', '!=', '<', '>=', '<<', '>>', '-', '+', '/', '*', '%', '**']:
+        for n_ in ([49, 60] if tier == 'quick' else [33, 48, 49, 50, 64, 65, 129, 300]):
+            cases.append(run_case('parse', f' {op_} '.join(f'a{i}' for i in range(n_)) + ';', label='long-chain'))
+    for n_ in ([40, 300] if tier == 'quick' else [33, 64, 65, 255, 256, 257, 300, 600]):
+        cases.append(run_case('parse', 'a' + '.p' * n_ + ';', label='long-chain'))
+        cases.append(run_case('parse', 'a' + '[0]' * n_ + ';', label='long-chain'))
+        cases.append(run_case('parse', 'a' + '(1)' * n_ + ';', label='long-chain'))
+        cases.append(run_case('parse', '(' * n_ + 'a' + ')' * n_ + ';', label='long-chain'))
+        cases.append(run_case('parse', 'x = ' * n_ + '1;', label='long-chain'))
+        cases.append(run_case('parse', '-' * n_ + 'a;', label='long-chain'))
+        cases.append(run_case('parse', '[' * n_ + ']' * n_ + ';', label='long-chain'))
+        cases.append(run_case('parse', 'f(' + ', '.join(f'a{i}' for i in range(n_)) + ');', label='long-chain'))
     for src in ['a = b = c;', 'a = b = c = 1 + 2;', 'a[1] = b.p = c;', 'a = b || c = d;', '(a) = 1;', 'a + b = c;', '1 = 2;', 'a = (b = c);', '-a = 1;', 'a() = 1;',
                 '(a[0]) = 1;', '((o.k)) = 7;', '(a)[0] = 1;', '(o).k = 1;', '(a = 1) = 2;', '[a] = 1;', '{k: 1} = 2;', 'a.k() = 1;', 'a[0]() = 1;', '"s" = 1;',
                 'nil = 1;', '(nil) = 1;', '((a)) = 1;', 'a = (1);', '!(a) = 1;']:
@@ -401,6 +443,11 @@ def c08(tier, rng):
             pre = ' '.join(toks[:cut])
             for t in TOK_ALPHA:
                 cases.append(run_case('parse', (pre + ' ' + t).strip(), label='prefix-ext'))
+    # every code point of the Bengali block and of some symbol blocks as a bare token between statements:
+    # letters and marks make identifiers, digits numbers, everything else is an unexpected character
+    for cp in list(range(0x0980, 0x0A00)) + list(range(0x00A0, 0x00C0)) + list(range(0x2000, 0x2070, 3)) + [0x0964, 0x0965, 0x20B9, 0x09F3, 0xFEFF, 0x200B, 0x200C, 0x200D, 0x00AD]:
+        cases.append(run_case('parse', f'{KW["print"]} 1;\n{chr(cp)};\n{KW["print"]} 2;\n', label='bare-code-point'))
+        cases.append(run_case('parse', f'{KW["var"]} a{chr(cp)} = 1;\n', label='bare-code-point'))
     # reserved names, parameter limit, assignment targets, statements starting with `{`
     for name in list(NAT.values()) + ['input', 'a', 'inputx', KW['print']]:
         cases.append(run_case('parse', f'{KW["var"]} {name} = 1;', label='reserved'))
